@@ -164,6 +164,16 @@ macro_rules! kind_impl {
                             });
                             match r {
                                 Err(_) => rep.outcome("out-of-range-value-panics(not judged by C07)"),
+                                Ok((false, _)) => {
+                                    // refusing a value that does not fit is allowed (the statement promises nothing here);
+                                    // the buffer must then be untouched outside the field all the same
+                                    let outside_same = (0..BUF * 8).all(|i| (i >= off && i < off + w) || get_bit(&buf, i) == get_bit(&base, i));
+                                    if !outside_same {
+                                        rep.violation("C07", format!("{}:out-of-range-refused-but-touched", stringify!($it)), format!("put::<{}>({}, {}) at bit {} (value not representable) returned an error but changed bits outside the field", stringify!($it), v, w, off), w as u64,
+                                            json!({"kind":"bitfield","it":stringify!($it),"width":w,"offset":off,"value":v.to_string(),"background":hex(&base[..2])}));
+                                    }
+                                    rep.outcome("out-of-range-value-refused");
+                                }
                                 Ok((ok, cur)) => {
                                     let outside_same = (0..BUF * 8).all(|i| (i >= off && i < off + w) || get_bit(&buf, i) == get_bit(&base, i));
                                     if !ok || cur != off + w || !outside_same {
